@@ -43,19 +43,23 @@ import (
 
 type stubHelper struct{}
 
-func (stubHelper) GenerateGenesisInfo() []*types.GenesisInfo  { return []*types.GenesisInfo{} }
-func (stubHelper) VRFProve2Value(p *big.Int) *big.Int          { return p }
-func (stubHelper) ProposalBonus() *big.Int                     { return big.NewInt(0) }
-func (stubHelper) PackBonus() *big.Int                         { return big.NewInt(0) }
-func (stubHelper) VerifyHash(b *types.Block) common.Hash       { return common.BytesToHash(common.Sha256(b.Header.Hash.Bytes())) }
+func (stubHelper) GenerateGenesisInfo() []*types.GenesisInfo { return []*types.GenesisInfo{} }
+func (stubHelper) VRFProve2Value(p *big.Int) *big.Int        { return p }
+func (stubHelper) ProposalBonus() *big.Int                   { return big.NewInt(0) }
+func (stubHelper) PackBonus() *big.Int                       { return big.NewInt(0) }
+func (stubHelper) VerifyHash(b *types.Block) common.Hash {
+	return common.BytesToHash(common.Sha256(b.Header.Hash.Bytes()))
+}
 func (stubHelper) CheckProveRoot(*types.BlockHeader) (bool, error) { return true, nil }
 func (stubHelper) VerifyNewBlock(bh *types.BlockHeader, pre *types.BlockHeader) (bool, error) {
 	return true, nil
 }
-func (stubHelper) VerifyBlockHeader(*types.BlockHeader) (bool, error)               { return true, nil }
-func (stubHelper) VerifyGroupSign([]byte, common.Hash, []byte) (bool, error)        { return true, nil }
-func (stubHelper) CheckGroup(*types.Group) (bool, error)                            { return true, nil }
-func (stubHelper) VerifyMemberInfo(*types.BlockHeader, *types.BlockHeader) (bool, error) { return true, nil }
+func (stubHelper) VerifyBlockHeader(*types.BlockHeader) (bool, error)        { return true, nil }
+func (stubHelper) VerifyGroupSign([]byte, common.Hash, []byte) (bool, error) { return true, nil }
+func (stubHelper) CheckGroup(*types.Group) (bool, error)                     { return true, nil }
+func (stubHelper) VerifyMemberInfo(*types.BlockHeader, *types.BlockHeader) (bool, error) {
+	return true, nil
+}
 func (stubHelper) VerifyGroupForFork(*types.Group, *types.Group, *types.Group, *types.Block) (bool, error) {
 	return true, nil
 }
@@ -70,14 +74,15 @@ func (stubGroups) GetBlockHeader(uint64) *types.BlockHeader                  { r
 // scenario scripts (abstract: labels, no hashes)
 
 // A scenario is a list of lines:
-//   tx t1                          declare a transaction
-//   blk b3 b1 4 2 5 t1,t2 ok       declare block: label parent height qn pv txs(or -) ok|badroot
-//   pool t1                        AddTransaction
-//   add b3                         AddBlockOnChain
-//   addc b3 5 0                    AddBlockOnChain, process death before write token 5 (sub-th write inside a state run)
-//   addnil                         AddBlockOnChain(nil)
-//   restart                        process restart
-//   restartc 2 0                   restart with a death before write token 2 of the start-up repair
+//
+//	tx t1                          declare a transaction
+//	blk b3 b1 4 2 5 t1,t2 ok       declare block: label parent height qn pv txs(or -) ok|badroot
+//	pool t1                        AddTransaction
+//	add b3                         AddBlockOnChain
+//	addc b3 5 0                    AddBlockOnChain, process death before write token 5 (sub-th write inside a state run)
+//	addnil                         AddBlockOnChain(nil)
+//	restart                        process restart
+//	restartc 2 0                   restart with a death before write token 2 of the start-up repair
 type scenario struct {
 	name  string
 	lines []string
@@ -370,14 +375,15 @@ func (g *gateState) hook(file, op string, key []byte, n int) bool {
 // child: run one scenario against the real chain
 
 type blockInfo struct {
-	label  string
-	parent string
-	height uint64
-	qn     uint64
-	pv     int64
-	txs    []string
-	flag   string
-	block  *types.Block
+	label    string
+	parent   string
+	height   uint64
+	qn       uint64
+	pv       int64
+	txs      []string
+	flag     string
+	block    *types.Block
+	goodRoot common.Hash
 }
 
 type child struct {
@@ -393,7 +399,8 @@ type child struct {
 	dead    bool // process death simulated, must restart before anything else
 	viol    []map[string]string
 	name    string
-	script  []string // executed op lines so far (for replay)
+	script  []string // executed op lines so far
+	scnText string   // the scenario as given (re-runnable with scn=<file>)
 	monitor bool
 	genesis common.Hash
 }
@@ -421,7 +428,7 @@ func bootChain() error {
 func (c *child) violation(key, desc string) {
 	if len(c.viol) < 20 {
 		c.viol = append(c.viol, map[string]string{"key": key, "desc": desc, "scenario": c.name,
-			"script": strings.Join(c.script, "\n")})
+			"script": c.scnText})
 	}
 }
 
@@ -816,6 +823,7 @@ func (c *child) emitView(ctx string) {
 
 func (c *child) run(sc scenario) {
 	c.name = sc.name
+	c.scnText = strings.Join(sc.lines, "\n")
 	hxnode.BootServices("dev")
 	// dev's Proposal026 (gas magnification) is active from height 0, under which the dev genesis
 	// contracts no longer deploy; run the whole scenario without it
@@ -877,12 +885,17 @@ func (c *child) run(sc scenario) {
 			gate.mu.Lock()
 			gate.disabled = true
 			gate.mu.Unlock()
-			blk := core.VerifC05BuildBlock(c.sdb, par.block.Header, height, qn, big.NewInt(pv), castorID, groupID,
+			ph := *par.block.Header
+			if par.goodRoot != (common.Hash{}) {
+				ph.StateTree = par.goodRoot // children of a tampered block execute on what it really produces
+			}
+			blk := core.VerifC05BuildBlock(c.sdb, &ph, height, qn, big.NewInt(pv), castorID, groupID,
 				baseTime.Add(time.Duration(height)*time.Second+time.Duration(len(c.order))*time.Millisecond), txs)
 			gate.mu.Lock()
 			gate.disabled = false
 			gate.mu.Unlock()
 			if bi.flag == "badroot" {
+				bi.goodRoot = blk.Header.StateTree
 				blk.Header.StateTree = common.BytesToHash(common.Sha256(blk.Header.StateTree.Bytes()))
 				blk.Header.Hash = blk.Header.GenHash()
 			}
